@@ -198,6 +198,17 @@ func (se *ScriptEnv) transform(req, reply []byte) ([]byte, error) {
 			return sess.Wrap([]byte{0x81, 0x1c, 0x63, 0x20, 0x04}, refbmc.WrapOpts{}), nil
 		}
 		return []byte{6, 0, 0xff, 7, 6}, nil
+	case "ok:signed-plain":
+		// the authentic reply, signed under K1 but sent in the clear (payload-encrypted bit
+		// off): a valid response all the same
+		if last := se.BMC.Last(); last != nil && sess != nil && sess.Active {
+			body := st.okBody
+			if last.NetFn == 0x2c && (len(body) == 0 || body[0] != 0xdc) {
+				body = append([]byte{0xdc}, body...)
+			}
+			return sess.Wrap(refbmc.RespMsg(last, 0, body), refbmc.WrapOpts{NoEncrypt: true}), nil
+		}
+		return reply, nil
 	case "garbage:nomsg":
 		// a datagram that parses as RMCP+ but carries no IPMI message: a late Open Session
 		// Response, or an IPMI payload of length zero
